@@ -55,7 +55,7 @@ def rule_buffer_aliasing(ctx, rep, rid: str) -> None:
         if f.module.name not in ("vm", "context", "values"):
             continue
         for a in f.own_nodes():
-            if isinstance(a, ast.Assign) and isinstance(a.targets[0], ast.Attribute) and a.targets[0].attr == "_buffer" and isinstance(a.value, ast.Attribute) and a.value.attr == "_buffer":
+            if isinstance(a, ast.Assign) and isinstance(a.targets[0], ast.Attribute) and a.targets[0].attr == "_buffer" and norm(a.targets[0].value) != "self" and ((isinstance(a.value, ast.Attribute) and a.value.attr == "_buffer") or (isinstance(a.value, ast.Call) and isinstance(a.value.func, ast.Attribute) and "buffer" in a.value.func.attr and not a.value.args)):
                 n += 1
                 tgt = norm(a.targets[0].value)
                 off = any(isinstance(b, ast.Assign) and norm(b.targets[0]) == f"{tgt}._byte_offset" for b in f.own_nodes())
@@ -863,3 +863,72 @@ def rule_same_function_two_names(ctx, rep, rid: str) -> None:
             g, f, ln = other
             rep.bad(rid, key, f"{name} is installed from {first.qual} and from {g.qual}, whose statements differ: {why}, so the two answer differently for some argument (the copies of parseFloat disagreed on 'Infinity')", f"{f.module.rel}:{ln}")
     rep.analysed["same_function_names"] = n
+
+
+# ---- subarray is a view, whatever the receiver was made from ---------------------------------------------------
+def rule_subarray_shares_memory(ctx, rep, rid: str) -> None:
+    """TypedArray.prototype.subarray returns a new array over the SAME buffer: writes through either are seen by the
+    other.  The engine keeps a buffer only for arrays that were made over one; a subarray of an array made from a
+    length or a list has to get (and give its receiver) a buffer all the same, or it is a copy."""
+    rep.rule(rid, "every typed array that subarray returns has its buffer set, on every path, from the receiver by an expression that cannot be None (a method that creates the receiver's buffer when it has none, or the attribute under a test that it is not None with the other arm creating one): a subarray is never a copy", floor=1)
+    from ..util import known_conditions
+
+    fs = [f for f in ctx.tree.funcs if not isinstance(f.node, ast.Lambda) and f.parent is not None and f.parent.name == "_make_typed_array_method" and "subarray" in f.name]
+    if not fs:
+        raise AnalysisError(f"{rid}: the subarray native was not found")
+    optional_attrs = {"_buffer"}  # initialised with None in JSTypedArray.__init__
+    for f in fs:
+        rets = [r for r in f.own_nodes() if isinstance(r, ast.Return) and isinstance(r.value, ast.Name)]
+        for r in rets:
+            v = r.value.id
+            key = f"{f.qual}:{v}._buffer"
+            sets = [a for a in f.own_nodes() if isinstance(a, ast.Assign) and any(norm(t) == f"{v}._buffer" for t in a.targets)]
+            if not sets:
+                rep.bad(rid, key, f"{f.qual} returns `{v}` without giving it the receiver's buffer: the result is a copy, and `a.subarray(1)[0] = 9` does not change `a`", f"{f.module.rel}:{r.lineno}")
+                continue
+            cfg = ctx.facts.cfg(f)
+            snodes = {nd.id for nd in cfg.nodes if nd.ast is not None and any(x is a for a in sets for x in ast.walk(nd.ast))}
+            rnode = [nd for nd in cfg.nodes if nd.ast is r]
+            skipping = cfg.path_avoiding(cfg.entry.id, lambda nd: bool(rnode) and nd.id == rnode[0].id, snodes, None) if rnode else None
+            weak = None
+            for a in sets:
+                val = a.value
+                if isinstance(val, ast.Attribute) and val.attr in optional_attrs:
+                    guarded = any(pol and norm(val) in norm(t) and "None" in norm(t) and "is not" in norm(t) for t, pol in known_conditions(a, f.node))
+                    if not guarded:
+                        weak = a
+            if skipping is not None:
+                rep.bad(rid, key, f"{f.qual} can return `{v}` without passing `{short(sets[0], 40)}` (lines {[x.line for x in skipping if x.line][:6]}): on that path the result is a copy of the elements, not a view", f"{f.module.rel}:{sets[0].lineno}")
+            elif weak is not None:
+                rep.bad(rid, key, f"{f.qual} gives the result `{norm(weak.value)}`, which is None for an array made from a length or a list: the result then has no buffer of its own to share and is a copy (`var a = new Uint8Array([1,2]); a.subarray(1)[0] = 9` leaves `a` unchanged)", f"{f.module.rel}:{weak.lineno}")
+            else:
+                rep.ok(rid, key, {"buffer_from": [short(a.value, 40) for a in sets]})
+
+
+# ---- a byte count becomes an element count only when it divides ------------------------------------------------
+def rule_whole_elements_in_buffer(ctx, rep, rid: str) -> None:
+    """`new Uint32Array(buffer)` without a length covers the rest of the buffer, which has to hold a whole number of
+    elements (RangeError otherwise).  Floor division hides the remainder."""
+    rep.rule(rid, "where a typed-array constructor derives an element count from a byte count by floor division by the element size, the same remainder was tested on the way and a RangeError raised for a non-zero one", floor=1)
+    from ..util import known_conditions
+
+    n = 0
+    for f in ctx.tree.funcs:
+        if isinstance(f.node, ast.Lambda) or "_create_typed_array_constructor" not in f.qual:
+            continue
+        for d in f.own_nodes():
+            if not (isinstance(d, ast.BinOp) and isinstance(d.op, ast.FloorDiv) and "byteLength" in norm(d.left) and "size" in norm(d.right)):
+                continue
+            n += 1
+            key = f"{f.qual}:{short(d, 40)}"
+            want = f"{norm(d.left)} % {norm(d.right)}".replace("(", "").replace(")", "")
+            ok = False
+            for t, pol in known_conditions(d, f.node):
+                if not pol and want in norm(t).replace("(", "").replace(")", ""):
+                    ok = True
+            if ok:
+                rep.ok(rid, key)
+            else:
+                rep.bad(rid, key, f"{f.qual} computes the length as {short(d, 50)} without having refused a remainder: `new Uint32Array(new ArrayBuffer(7))` silently covers 4 of the 7 bytes where ECMAScript raises RangeError", f"{f.module.rel}:{d.lineno}")
+    if n == 0:
+        raise AnalysisError(f"{rid}: no length-from-bytes division found in the typed array constructor")
